@@ -19,6 +19,9 @@ pub struct C01 {
 	/// a refresh before their creating transaction confirms marks them Spent and the
 	/// repair scan then frees them (known finding, same family as C05's)
 	spent_unconfirmed: std::collections::BTreeSet<(usize, String)>,
+	/// coinbase candidates to leave unmined in this run
+	candidates_left: u32,
+	tiny_change_left: u32,
 }
 
 impl C01 {
@@ -51,6 +54,8 @@ impl C01 {
 			ctx_existed: false,
 			late: None,
 			spent_unconfirmed: Default::default(),
+			candidates_left: run.rng.below(3) as u32,
+			tiny_change_left: run.rng.below(3) as u32,
 		}
 	}
 
@@ -210,6 +215,20 @@ impl C01 {
 			}
 			match t {
 				None => {
+					if rec.status == OutputStatus::Unconfirmed && rec.is_coinbase {
+						// a coinbase candidate whose block never reached the chain
+						v.push(run.viol(
+							"inputs_spendable",
+							"input_unconfirmed_coinbase",
+							format!(
+								"wallet {}: selected the unconfirmed coinbase candidate {} (minimum_confirmations {})",
+								w,
+								kid.to_hex(),
+								args.min_conf
+							),
+						));
+						return v;
+					}
 					if rec.status == OutputStatus::Unconfirmed && args.min_conf == 0 {
 						run.cov.not_judged("unconfirmed_input_with_minconf_0");
 						continue;
@@ -444,7 +463,14 @@ impl C01 {
 						let c = run.ex.world.commit_of(w, b);
 						match truth.iter().find(|t| t.commit == c) {
 							None => {
-								if b.status == OutputStatus::Unconfirmed && args.min_conf == 0 {
+								if b.status == OutputStatus::Unconfirmed && b.is_coinbase {
+									v.push(run.viol(
+										"inputs_spendable",
+										"input_unconfirmed_coinbase",
+										format!("wallet {}: late lock selected the unconfirmed coinbase candidate {}", w, o.key_id.to_hex()),
+									));
+									return v;
+								} else if b.status == OutputStatus::Unconfirmed && args.min_conf == 0 {
 									run.cov.not_judged("unconfirmed_input_with_minconf_0");
 								} else {
 									v.push(run.viol(
@@ -597,7 +623,74 @@ impl Prop for C01 {
 	fn owns_panic(&self, step: &Step) -> bool {
 		matches!(step.op, Op::InitSend { .. } | Op::PayInvoice { .. } | Op::Finalize { .. })
 	}
+	fn custom(&mut self, ex: &mut crate::ops::Exec, name: &str, a: &serde_json::Value) -> crate::ops::OpRes {
+		use crate::ops::OpRes;
+		if name != "cb_candidate" {
+			return OpRes::Skipped("unknown".into());
+		}
+		// a mining node asks for a coinbase and the block never makes it to the chain
+		let w = a["w"].as_u64().unwrap_or(0) as usize;
+		if w >= ex.world.wallets.len() || !ex.world.is_open(w) {
+			return OpRes::Skipped("unavailable".into());
+		}
+		let bf = grin_wallet_libwallet::BlockFees {
+			fees: a["fees"].as_u64().unwrap_or(0),
+			height: ex.world.chain.height() + 1,
+			key_id: None,
+		};
+		match ex.world.foreign(w).build_coinbase(&bf) {
+			Ok(_) => OpRes::Ok { new_msg: None, note: String::new(), validated: None, new_wallet: None },
+			Err(e) => OpRes::Err(format!("{}", e)),
+		}
+	}
 	fn next(&mut self, run: &mut Run) -> Option<Step> {
+		if self.gen.setup_done && self.candidates_left > 0 && run.rng.chance(1, 10) {
+			let nw = run.ex.world.wallets.len();
+			if nw > 0 {
+				self.candidates_left -= 1;
+				run.cov.probe("coinbase_candidate_never_mined");
+				return Some(Step::new(Op::Custom {
+					name: "cb_candidate".into(),
+					args: serde_json::json!({"w": run.rng.idx(nw), "fees": run.rng.below(3) * 1_000_000}),
+				}));
+			}
+		}
+		// corner region: change smaller than the square of the number of change outputs
+		// (spend everything eligible, leave a handful of nanogrin as change)
+		if self.gen.setup_done && self.tiny_change_left > 0 && run.rng.chance(1, 8) {
+			let nw = run.ex.world.wallets.len();
+			let w = run.rng.idx(nw.max(1));
+			if nw > 0 && run.ex.world.is_open(w) && !run.ex.world.chain.is_down() {
+				let snap = run.ex.world.snap(w);
+				let tip = run.ex.world.chain.height();
+				if let Some(acct) = snap.acct_path(&snap.active) {
+					let elig: Vec<u64> = snap
+						.outputs
+						.iter()
+						.filter(|o| {
+							o.root_key_id == acct
+								&& o.status == OutputStatus::Unspent
+								&& o.lock_height <= tip && o.height <= tip
+						})
+						.map(|o| o.value)
+						.collect();
+					let total: u64 = elig.iter().sum();
+					let k = *run.rng.pick(&[2u32, 3, 3, 5, 7]);
+					let fee = tx_fee(elig.len(), k as usize + 1, 1);
+					let c = run.rng.below((k * k) as u64 + 3);
+					if !elig.is_empty() && total > fee + c + 1 {
+						self.tiny_change_left -= 1;
+						let mut a = SendArgs::simple(total - fee - c);
+						a.min_conf = 1;
+						a.max_outputs = 500;
+						a.use_all = true;
+						a.num_change = k;
+						run.cov.probe("change_below_square_of_change_outputs_attempted");
+						return Some(Step::new(Op::InitSend { w, args: a }));
+					}
+				}
+			}
+		}
 		self.gen.next(run)
 	}
 	fn before(&mut self, run: &mut Run, step: &Step) {
